@@ -564,3 +564,37 @@ Example C08_ex_alloc_open : c08_alloc_open = [].
 Proof. reflexivity. Qed.
 
 Print Assumptions C08_alloc_sites_bounded.
+
+(* ================================================================ extra wave: totality on C13's own term *)
+From GoMC Require Import Model.C13 Proofs.C08_c13.
+
+(* Model/C13.v chunk_read - the term C13's round-trip theorems are about and, by Proofs/C13_skel_interp.v,
+   the interpretation of the translated Chunk.ReadFrom - is generic in the paletted container.  For
+   EVERY container type and every PaletteContainer.ReadFrom that returns a value or an error on inputs
+   shorter than the fuel (for the destination containers, predicate good), chunk_read returns a value or
+   an error on every byte string shorter than the fuel: never a panic (the height-map size check
+   precedes NewBitStorage), never out of fuel.  This is C08_chunk_total_instantiated stated on C13's term
+   instead of this property's skeleton (an outcome-refinement between the two terms is NOT proved) *)
+Theorem C08_chunk_c13_total : forall (cont : Type) (pc_read : bool -> cont -> dec (cont * N)) fuel (good : cont -> Prop),
+  (forall biome c s, good c -> (length s < fuel)%nat -> ok_or_err (run_flat (pc_read biome c) s)) ->
+  forall (d : chunk cont) s,
+  Forall (fun se => good (s_states se) /\ good (s_biomes se)) (c_secs d) ->
+  N.of_nat (length (c_secs d)) < 2^58 -> (length s < fuel)%nat ->
+  ok_or_err (run_flat (Model.C13.chunk_read cont pc_read fuel d) s).
+Proof. intros cont pc_read fuel good H d s. exact (c13_chunk_read_total cont pc_read fuel good H d s). Qed.
+(* ... for C13's field-level container: wchunk_read, the reader of C13's wire round trip (gs, gb: the
+   global palette widths computed from the registries) *)
+Theorem C08_chunk_c13_total_wire : forall fuel gs gb (d : wchunk) s, (0 <= gs <= 64)%Z -> (0 <= gb <= 64)%Z ->
+  N.of_nat (length (c_secs d)) < 2^58 -> (length s < fuel)%nat ->
+  ok_or_err (run_flat (wchunk_read fuel gs gb d) s).
+Proof. exact c13_wchunk_read_total. Qed.
+(* ... and for C12's container, the one C08_chunk_total_instantiated puts into this property's skeleton *)
+Theorem C08_chunk_c13_total_c12 : forall fuel (d : chunk Model.C12.pc) s,
+  Forall (fun se => Proofs.C12.wfcfg (Model.C12.ccfg (s_states se)) /\ Proofs.C12.wfcfg (Model.C12.ccfg (s_biomes se))) (c_secs d) ->
+  N.of_nat (length (c_secs d)) < 2^58 -> (length s < fuel)%nat ->
+  ok_or_err (run_flat (Model.C13.chunk_read Model.C12.pc (fun _ => Model.C12.pc_read fuel) fuel d) s).
+Proof. exact c13_chunk_read_total_c12. Qed.
+
+Print Assumptions C08_chunk_c13_total.
+Print Assumptions C08_chunk_c13_total_wire.
+Print Assumptions C08_chunk_c13_total_c12.
